@@ -25,7 +25,7 @@ from typing import Any, Dict, List, Optional, Tuple
 
 from harness.lib import scen
 
-MODELLED_NODE_TYPES = {"computer", "server", "switch", "router", "firewall"}
+MODELLED_NODE_TYPES = {"computer", "server", "printer", "switch", "router", "firewall"}
 FW_ACLS = ["internal_inbound_acl", "internal_outbound_acl", "dmz_inbound_acl", "dmz_outbound_acl", "external_inbound_acl",
            "external_outbound_acl"]
 FW_PORTS = {"external_port": 1, "internal_port": 2, "dmz_port": 3}
@@ -276,6 +276,29 @@ def state_oracle(game) -> List[str]:
             want = ("RUNNING",) if on else ("STOPPED", "CLOSED")
             if st not in want:
                 bad.append(f"software-state {node.config.hostname} {name} {st} node_on={on}")
+    return bad
+
+
+def options_oracle(game, cfg: Dict) -> List[str]:
+    """The `game:` section (outside the Lean model): episode length, seed, the port / protocol whitelists in file order, thresholds;
+    and `simulation.network.airspace.frequency_max_capacity_mbps` where the file has it."""
+    from primaite.utils.validation.ip_protocol import PROTOCOL_LOOKUP
+    from primaite.utils.validation.port import PORT_LOOKUP
+    bad = []
+    g = cfg.get("game") or {}
+    o = game.options
+    if o.max_episode_length != int(g.get("max_episode_length", 256)):
+        bad.append(f"game max_episode_length built={o.max_episode_length} declared={g.get('max_episode_length', 256)}")
+    if o.seed != g.get("seed"):
+        bad.append(f"game seed built={o.seed} declared={g.get('seed')}")
+    want_ports = [PORT_LOOKUP[p] if isinstance(p, str) else int(p) for p in g.get("ports", [])]
+    if [int(p) for p in o.ports] != want_ports:
+        bad.append(f"game ports built={list(o.ports)} declared={want_ports}")
+    want_protos = [str(PROTOCOL_LOOKUP[p] if p in PROTOCOL_LOOKUP else p).lower() for p in g.get("protocols", [])]
+    if [str(p).lower() for p in o.protocols] != want_protos:
+        bad.append(f"game protocols built={list(o.protocols)} declared={want_protos}")
+    if "thresholds" in g and tok(o.thresholds) != tok(g["thresholds"]):
+        bad.append(f"game thresholds built={tok(o.thresholds)} declared={tok(g['thresholds'])}")
     return bad
 
 
